@@ -6,8 +6,8 @@
    C07/Model.v that the correspondence ties execute at binary64. *)
 From Coq Require Import List Arith ZArith Bool Reals.
 From T4V Require Import Base.Scalar C07.Model C07.ProofsAlgebra C07.ProofsComb C07.ProofsMain
-  C07.ProofsGeom C07.ProofsExample C07.ProofsDomain C07.ProofsRhp C07.ProofsDevelop
-  C07.ProofsErrors.
+  C07.ProofsGeom C07.ProofsExample C07.ProofsDomain C07.ProofsRhp C07.ModelDevelop C07.ProofsDevelop
+  C07.ProofsErrors C07.LinkC03 C07.ProofsCaps C07.ProofsFlip.
 Import ListNotations.
 Open Scope R_scope.
 
@@ -513,3 +513,57 @@ Print Assumptions C07_sort_count_error.
 Example C07_open_chain_never_ends :
   hex_vertices_abs (pair_in [(0, 2); (0, 4); (1, 3); (1, 5); (2, 4); (3, 5)]%nat) 0 = Err ELoop.
 Proof. vm_compute. reflexivity. Qed.
+
+(* ---------- link with C03 (macrobodies) ---------- *)
+
+(* C07's model of MacroBodies.rhp (under rhp_cell_surfaces and the
+   C07_rhp*_lattice_vectors theorems) IS C03's model of it (about which C03 proves
+   the RHP/HEX facets), at every Scalar — reals and binary64 alike: same
+   exceptions, same eight (P, [A; B; C; D], side) entries *)
+Theorem C07_rhp_is_C03_rhp_linked : forall (T : Type) (S : Scalar T) (p : list T),
+  res03 (rhp S p) = M3.rhp S p.
+Proof. exact @rhp_is_C03_rhp. Qed.
+Print Assumptions C07_rhp_is_C03_rhp_linked.
+
+(* the definition executed by tie:develophex is the develop_lattice_hex of
+   C07_hex_lattice_developed *)
+Theorem C07_develop_lattice_hex_is_tied : forall (dic : Z -> list rsurf) (ids : list Z) (cell : M6.lat_cell (T:=R)),
+  develop_lattice_hex_gen RS dic ids cell = develop_lattice_hex (extract_surfaces dic ids) cell.
+Proof. exact develop_lattice_hex_is_gen. Qed.
+Print Assumptions C07_develop_lattice_hex_is_tied.
+
+(* an admissible prism whose seventh or eighth plane is parallel to the axis:
+   ZeroDivisionError (hexVertices' first projection, or the projection on the
+   eighth plane) *)
+Theorem C07_caps_parallel_to_axis :
+  forall (c u : rvec) (w : nat -> rvec) (l : list nat) (surfs : list rsurf),
+  In l all_listings ->
+  (forall i, (i < 6)%nat -> carries u w (pl surfs i) (side_at l i)) ->
+  (forall i, (i < 6)%nat -> sd surfs i = planeSide RS c (pl surfs i) /\ sd surfs i <> 0%Z) ->
+  (forall k, wv w (k + 3) = vsub (vscale 2 c) (wv w k)) ->
+  ((forall k, 0 < det3 (vsub (wv w (k + 1)) (wv w k)) (vsub (wv w (k + 2)) (wv w (k + 1))) u) \/
+   (forall k, det3 (vsub (wv w (k + 1)) (wv w k)) (vsub (wv w (k + 2)) (wv w (k + 1))) u < 0)) ->
+  List.length surfs = 8%nat ->
+  dot u (snd (pl surfs 6)) = 0 \/ dot u (snd (pl surfs 7)) = 0 ->
+  hexLatticeBaseVectors RS surfs = Err EZeroDiv.
+Proof. exact caps_parallel. Qed.
+Print Assumptions C07_caps_parallel_to_axis.
+
+(* an admissible prism with exactly one of its six side senses flipped (the cell
+   written on the wrong side of the plane listed at position i0): the two
+   neighbouring intersections judged by that plane are rejected, the one that
+   meets beyond it is accepted, hexSortSides counts five intersections and
+   raises LatticeError — for every listing order, every position, 6 or 8 planes *)
+Theorem C07_flipped_sense_lattice_error :
+  forall (c u : rvec) (w : nat -> rvec) (l : list nat) (surfs : list rsurf) (i0 : nat),
+  In l all_listings -> (i0 < 6)%nat ->
+  (forall i, (i < 6)%nat -> carries u w (pl surfs i) (side_at l i)) ->
+  (forall i, (i < 6)%nat -> i <> i0 -> sd surfs i = planeSide RS c (pl surfs i) /\ sd surfs i <> 0%Z) ->
+  (sd surfs i0 = (- planeSide RS c (pl surfs i0))%Z /\ sd surfs i0 <> 0%Z) ->
+  (forall k, wv w (k + 3) = vsub (vscale 2 c) (wv w k)) ->
+  ((forall k, 0 < det3 (vsub (wv w (k + 1)) (wv w k)) (vsub (wv w (k + 2)) (wv w (k + 1))) u) \/
+   (forall k, det3 (vsub (wv w (k + 1)) (wv w k)) (vsub (wv w (k + 2)) (wv w (k + 1))) u < 0)) ->
+  (List.length surfs = 6%nat \/ List.length surfs = 8%nat) ->
+  hexLatticeBaseVectors RS surfs = Err ELattice.
+Proof. exact flipped_sense_lattice_error. Qed.
+Print Assumptions C07_flipped_sense_lattice_error.
